@@ -69,11 +69,18 @@ def sampler_kwargs(task):
     nlive = task.get("nlive", 30)
     # plot=True (the library default) makes update_state produce the state / trace / insertion-index
     # plots every nlive iterations: the functions called there are on the signal path too
-    return dict(nlive=nlive, plot=bool(task.get("plot", False)), seed=task.get("seed", 3), stopping=task.get("stopping", 0.5),
-                max_iteration=task.get("max_iteration", 600), analytic_priors=True,
-                maximum_uninformed=task.get("maximum_uninformed", 40), poolsize=task.get("poolsize", 20),
-                flow_config=dict(n_blocks=2, n_neurons=4, max_epochs=task.get("max_epochs", 8), patience=4),
-                exit_code=EXIT_CODE, checkpointing=True)
+    kw = dict(nlive=nlive, plot=bool(task.get("plot", False)), seed=task.get("seed", 3), stopping=task.get("stopping", 0.5),
+              max_iteration=task.get("max_iteration", 600), analytic_priors=not task.get("rejection", False),
+              maximum_uninformed=task.get("maximum_uninformed", 40), poolsize=task.get("poolsize", 20),
+              flow_config=dict(n_blocks=2, n_neurons=4, max_epochs=task.get("max_epochs", 8), patience=4),
+              exit_code=EXIT_CODE, checkpointing=True)
+    if task.get("uninformed_only"):
+        # stay with the uninformed (prior) proposal for the whole run
+        kw.update(maximum_uninformed=10 ** 9, uninformed_acceptance_threshold=0.0)
+    if task.get("ckpt_interval"):
+        # periodic checkpoints on iterations (made by update_state)
+        kw.update(checkpoint_on_iteration=True, checkpoint_interval=int(task["ckpt_interval"]))
+    return kw
 
 
 def quiet():
@@ -147,7 +154,7 @@ def phase1(task, outdir):
     fs = FlowSampler(model, output=outdir, resume=True, signal_handling=True, **sampler_kwargs(task))
     ns = fs.ns
     code, lineno = resolve_target(task)
-    info = {"reached": False, "target_line": lineno}
+    info = {"reached": False, "target_line": lineno, "started_at_iteration": int(ns.iteration)}
     if lineno is None:
         with open(os.path.join(outdir, "inject.json"), "w") as fh:
             json.dump({"reached": False, "why": "line not found in the current source"}, fh)
@@ -174,6 +181,8 @@ def phase1(task, outdir):
             info["at"] = snap(ns)
         with open(os.path.join(outdir, "inject.json"), "w") as fh:
             json.dump(info, fh)
+        if task.get("second_signal"):
+            st["first_handler_running"] = True   # the wrapped __getstate__ sends the second signal
         if task.get("real_signal"):
             # whatever handler the process has REGISTERED for the signal runs before the next bytecode
             os.kill(os.getpid(), getattr(signal, task.get("signum", "SIGTERM")))
@@ -201,6 +210,21 @@ def phase1(task, outdir):
             return local
         return None
 
+    if task.get("second_signal"):
+        # a second signal while the handler of the first one is pickling the sampler (Ctrl-C twice):
+        # delivered on entry of the Python-level __getstate__ the pickler calls from the handler's checkpoint
+        import nessai.samplers.base as bsm
+        orig_getstate = bsm.BaseNestedSampler.__getstate__
+
+        def getstate(self_):
+            if st.get("first_handler_running") and not st.get("second_sent"):
+                st["second_sent"] = True
+                with open(os.path.join(outdir, "second.json"), "w") as fh:
+                    json.dump({"sent": task["second_signal"], "iteration": int(ns.iteration)}, fh)
+                os.kill(os.getpid(), getattr(signal, task["second_signal"]))
+            return orig_getstate(self_)
+
+        bsm.BaseNestedSampler.__getstate__ = getstate
     if ins:
         st["armed"] = True
         cls = type(ns)
@@ -285,6 +309,7 @@ def phase2(task, outdir):
             res.update({"iteration": int(ns.iteration), "n_ns": len(nsamp), "n_idx": len(ns.insertion_indices),
                         "n_logLs": len(ns.state.logLs), "n_logvols": len(ns.state.log_vols), "nlive": int(ns.nlive),
                         "finalised": bool(ns.finalised), "ids": ids,
+                        "live_ids": None if ns.live_points is None else [pid_of(p, names) for p in ns.live_points],
                         "logLs_match": [float(v) for v in ns.state.logLs[1:]] == ll,
                         "monotone": all(a <= b for a, b in zip(ll, ll[1:])),
                         "logZ": float(fs.logZ), "n_post": int(fs.posterior_samples.size)})
@@ -304,6 +329,13 @@ def forked(fn, task, outdir, timeout):
             devnull = os.open(os.devnull, os.O_WRONLY)
             os.dup2(devnull, 1)
             os.dup2(devnull, 2)
+            # a forked child inherits the parent's generator state; a really fresh interpreter starts from OS
+            # entropy - without this, two resumed processes of one history would replay the same random stream
+            import random
+            import torch
+            np.random.seed(None)
+            random.seed()
+            torch.seed()
             fn(task, outdir)
         finally:
             os._exit(98)
@@ -322,31 +354,75 @@ def forked(fn, task, outdir, timeout):
         time.sleep(0.02)
 
 
-def run_task(task, root, j):
-    outdir = os.path.join(root, f"t{j}")
-    os.makedirs(outdir, exist_ok=True)
-    out = {"task": task}
-    rc = forked(phase1, task, outdir, task.get("timeout", 240))
-    out["exit"] = rc
+def read_checkpoint(task, outdir, out):
+    rf = os.path.join(outdir, "nested_sampler_resume.pkl")
+    out["checkpoint"] = None
+    out["files"] = sorted(f for f in os.listdir(outdir) if f.startswith("nested_sampler_resume"))
+    if os.path.exists(rf):
+        try:
+            with open(rf, "rb") as fh:
+                ck = pickle.load(fh)
+            out["checkpoint"] = snap(ck, full=True, names=[f"x{i}" for i in range(task.get("dims", 2))])
+        except BaseException as e:  # noqa
+            out["checkpoint_error"] = type(e).__name__ + ": " + str(e)[:200]
+    else:
+        out["checkpoint_error"] = "no resume file; present: " + ", ".join(out["files"])
+
+
+def run_stage(task, outdir):
+    out = {}
+    for name in ("inject.json", "second.json", "phase1_error.txt"):
+        p = os.path.join(outdir, name)
+        if os.path.exists(p):
+            os.remove(p)
+    out["exit"] = forked(phase1, task, outdir, task.get("timeout", 240))
     ip = os.path.join(outdir, "inject.json")
     out["inject"] = json.load(open(ip)) if os.path.exists(ip) else None
+    sp = os.path.join(outdir, "second.json")
+    if os.path.exists(sp):
+        out["second"] = json.load(open(sp))
     ep = os.path.join(outdir, "phase1_error.txt")
     if os.path.exists(ep):
         out["phase1_error"] = open(ep).read()[-1200:]
+    return out
+
+
+def run_task(task, root, j):
+    """One history: signal [, resume, signal]* , resume, finish.  `task["then"]` lists the later signals
+    (each a dict that overrides func / text / after / ... of the first one)."""
+    outdir = os.path.join(root, f"t{j}")
+    os.makedirs(outdir, exist_ok=True)
+    out = {"task": task, "stages": []}
+    stages = [task] + [dict({k: v for k, v in task.items() if k != "then"}, **t2) for t2 in task.get("then", [])]
+    last = None
+    for k, stage_task in enumerate(stages):
+        st_out = run_stage(stage_task, outdir)
+        if not st_out["inject"] or not st_out["inject"].get("reached"):
+            st_out["stage"] = k
+            out["stages"].append(st_out)
+            last = st_out
+            break
+        if task["sampler"] == "ins":
+            st_out["files_after"] = file_hashes(outdir)
+        else:
+            read_checkpoint(stage_task, outdir, st_out)
+        st_out["stage"] = k
+        out["stages"].append(st_out)
+        last = st_out
+    # the last stage is what the single-signal predicate looks at
+    out.update({k: v for k, v in last.items() if k != "stage"})
+    slim = []
+    for st_out in out["stages"]:
+        c = st_out.get("checkpoint") or {}
+        slim.append({"stage": st_out["stage"], "exit": st_out.get("exit"),
+                     "reached": bool(st_out.get("inject") and st_out["inject"].get("reached")),
+                     "started_at": (st_out.get("inject") or {}).get("started_at_iteration"),
+                     "ckpt_iteration": c.get("iteration"), "ckpt_live": c.get("live"), "ckpt_n_dead": c.get("n_dead"),
+                     "ckpt_dead": c.get("dead") if len(out["stages"]) > 1 else None,
+                     "checkpoint_error": st_out.get("checkpoint_error"), "second": st_out.get("second")})
+    out["stages"] = slim
     if not out["inject"] or not out["inject"].get("reached"):
         return out
-    rf = os.path.join(outdir, "nested_sampler_resume.pkl")
-    if task["sampler"] == "ins":
-        out["files_after"] = file_hashes(outdir)
-    else:
-        out["checkpoint"] = None
-        if os.path.exists(rf):
-            try:
-                with open(rf, "rb") as fh:
-                    ck = pickle.load(fh)
-                out["checkpoint"] = snap(ck, full=True, names=[f"x{i}" for i in range(task.get("dims", 2))])
-            except BaseException as e:  # noqa
-                out["checkpoint_error"] = type(e).__name__ + ": " + str(e)[:200]
     rc2 = forked(phase2, task, outdir, task.get("timeout", 240))
     out["resume_exit"] = rc2
     fp = os.path.join(outdir, "final.json")
